@@ -16,8 +16,14 @@
    shape its C++ type enforces, and value 0 of a pack/channel/stream-format ID belongs to the all-zero ID only.
    The two theorems that keep the suffix _partial are stated for an arbitrary state under [distinct_above];
    C05_distinctness_holds_in_reached_states discharges that hypothesis in every reached state.
-   Not modelled here: deepCopy/parse as sources of documents (C09/C13 cover them), wrap-around of the 16/32-bit fields. *)
-From Adm Require Import Heap.Exec gen.PlansGen Heap.PlanChecks Heap.Frame Heap.Ids Heap.WF Heap.Uniq.
+   The invariant is carried through the extended calls too - block additions, times, copy(), Document::deepCopy,
+   deepCopyTo, updateBlockFormatDurations, tracing (C05_ids_unique_all_calls, Heap/UniqExt.v) - and reassignIds keeps
+   membership consistency and uniqueness (C05_reassign_keeps_ids_unique, Heap/UniqReassign.v: every new ID goes through
+   set(Id), which refuses an ID in use); histories that continue after a reassignIds are not covered by the invariant
+   theorem because the shape of the IDs it hands out depends on the kinds of the members at each call site.
+   Not modelled here: parsed documents (C08/C13 cover them), wrap-around of the 16/32-bit fields. *)
+From Adm Require Import Heap.Exec Heap.More gen.PlansGen Heap.PlanChecks Heap.Frame Heap.Ids Heap.WF Heap.WFExt Heap.Joint Heap.Uniq
+  Heap.UniqExt Heap.UniqReassign.
 Local Open Scope N_scope.
 
 Theorem C05_plans_recognised : plans_problems = [] /\ add_plan_complete gen_plans = true /\ plans_typed gen_plans = true.
@@ -132,6 +138,26 @@ Proof.
                 ops empty_state s' empty_wf empty_U Hok Hrun))).
 Qed.
 Print Assumptions C05_distinctness_holds_in_reached_states.
+
+(* copies and the other extended calls *)
+Theorem C05_ids_unique_all_calls : forall ops s', forallb (fun o => negb (is_reassign o)) ops = true ->
+  xshaped_run gen_plans ops empty_state -> xrun_succ gen_plans ops empty_state = Some s' ->
+  forall d k h1 h2 e1 e2, In h1 (listed s' d k) -> In h2 (listed s' d k) -> h1 <> h2 ->
+    get_elem s' h1 = Some e1 -> get_elem s' h2 = Some e2 -> exempt k (eid e1) = false -> eid e1 <> eid e2.
+Proof.
+  exact (fun ops s' Hn Hok Hrun =>
+    match uniq_xinvariant gen_plans gen_add_plan_complete gen_remove_plan_complete gen_plans_typed eq_refl
+            ops empty_state s' Hn empty_G empty_U Hok Hrun with
+    | conj _ (conj Un _) => Un
+    end).
+Qed.
+Print Assumptions C05_ids_unique_all_calls.
+
+(* reassignIds: membership consistency and uniqueness are kept, whatever is renumbered and in whatever order *)
+Theorem C05_reassign_keeps_ids_unique : forall d s s' u, reassign_ids d s = (s', inl u) -> MemOk s -> Uniq s ->
+  MemOk s' /\ Uniq s'.
+Proof. exact reassign_ids_keeps_unique. Qed.
+Print Assumptions C05_reassign_keeps_ids_unique.
 
 (* the guard is decidable and a history with colliding pre-set IDs, gaps, removal and re-adding passes it *)
 Example C05_history_exists :
